@@ -107,6 +107,11 @@ func (w *World) verifyFunc(sel string, con *Contract) *FuncResult {
 			c0.clause = &con.Requires[i]
 			st.assume(ex.safeFormula(c0, con.Requires[i].Text))
 		}
+		if len(con.Implements) > 0 {
+			for i := range con.Requires {
+				ex.note("closure precondition assumed at its call sites (an invariant of the captured state, established where the closure is created): %s requires %s", sel, con.Requires[i].Text)
+			}
+		}
 		for _, ftn := range con.Implements {
 			ft := w.cons["functype "+ftn]
 			if ft == nil {
